@@ -30,8 +30,8 @@ import qgen
 import vlib
 
 ID = "C09"
-LEAN_MODULES = ["FaxVerif.C09.Theorems"]
-LEAN_SOURCES = ["FaxVerif/C09", "FaxVerif/Generated/C09Tables.lean"]
+LEAN_MODULES = ["FaxVerif.C09.Theorems", "FaxVerif.C09.ExecTheorems"]
+LEAN_SOURCES = ["FaxVerif/C09", "FaxVerif/Generated/C09Tables.lean", "FaxVerif/Generated/C09Exec.lean"]
 DRIVER = "FaxVerif/C09/Driver.lean"
 THEOREMS = [
     "FaxVerif.C09.fail_closed",
@@ -47,6 +47,24 @@ THEOREMS = [
     "FaxVerif.C09.md_kinds_documented",
     "FaxVerif.C09.inject_refuses_exactly",
     "FaxVerif.C09.jobscript_refuses_exactly",
+    # executor level (ExecTheorems.lean)
+    "FaxVerif.C09.Exec.exec_source_recognised",
+    "FaxVerif.C09.Exec.exec_stage_order",
+    "FaxVerif.C09.Exec.exec_backends",
+    "FaxVerif.C09.Exec.first_error_wins",
+    "FaxVerif.C09.Exec.refused_iff_some_stage_refuses",
+    "FaxVerif.C09.Exec.no_partial_package",
+    "FaxVerif.C09.Exec.accepted_is_complete",
+    "FaxVerif.C09.Exec.outcome_satisfies_spec",
+    "FaxVerif.C09.Exec.refused_runner_never_complete",
+    "FaxVerif.C09.Exec.malformed_item_any_position",
+    "FaxVerif.C09.Exec.inject_conflict_any_position",
+    "FaxVerif.C09.Exec.bad_call_any_position",
+    "FaxVerif.C09.Exec.job_blocks_all_handed",
+    "FaxVerif.C09.Exec.malformed_jobs_refused",
+    "FaxVerif.C09.Exec.last_declaration_counts",
+    "FaxVerif.C09.Exec.refused_state_exact",
+    "FaxVerif.C09.Exec.failed_run_state_not_restored_counterexample",
 ]
 RULE = (
     "valid type-directed queries (C01 generator, three backends) with one unsupported construct grafted at a random live position: "
@@ -61,15 +79,26 @@ RULE = (
     "inject_code blocks with one contradictory copy; one dictionary of every kind with a needed key dropped or misspelt, a stray key (kinds "
     "with a whitelist), a near-miss / missing / non-text metadata_type, the element_type contradiction; blocks placed at random places of "
     "the metadata chain. In both families a case is non-trivial when its well-formed twin (the malformation taken back) is translated. "
-    "Left out on purpose (listed findings): surplus arguments of Select / Where / SelectMany."
+    "Left out on purpose (listed findings): surplus arguments of Select / Where / SelectMany. "
+    "Executor level: histories of one (70%) or two queries on ONE real executor, fresh output directory per query; each query a chain of 1-3 "
+    "operators over ds0 with the ~25 declarations of the synthetic data model plus 1-10 further blocks (user functions, some name declared twice, "
+    "job-script / inject blocks with copies, one dictionary of a random kind) spread over the chain, 1-4 call sites of fixed-arity callees, and "
+    "0 (55%) / 1 / 2 / 3 malformations drawn over the stages (malformed dictionary, contradictory inject copy, collection of another backend, "
+    "wrong call, unsupported operator, ATLAS job-script conflict / dangling / circle, top-level shape / no dataset, a character that cannot be "
+    "written out in the job script / an include / a string constant); 9% of the histories meet a template directory that is missing or lacks "
+    "one file. A case is non-trivial when the chain carries >= 10 dictionaries and >= 2 candidate call sites."
 )
 TRUSTED_BASE = [
     "tools/translate/c09_tables.py (reads visit_/call_ method names and the three operator dict literals with Python's ast)",
     "the visitor model is a coarse model of the dispatch (kinds, operators, comparator count); refusals that depend on representation kinds (value vs sequence) are decided by the executed implementation only",
     "lean/FaxVerif/C09/Model.lean `mdKinds`: the table of metadata kinds (needed keys, whitelists) is written by hand from process_metadata; every generated dictionary is run through model and implementation and the verdicts are compared",
     "the harness reduces a metadata dictionary to (metadata_type, key set, truth of contains_collection) and an inject_code block to its dataclass fields with defaults filled in",
+    "tools/props/c09.py generate_exec: reads file_names / runner_name literals, the use of generate_script_block and the order of eight + six stage markers of the two public methods with Python's ast (Generated/C09Exec.lean; theorems exec_source_recognised / exec_stage_order / exec_backends re-proved on every run)",
+    "executor-level harness: the metadata chain is taken from the query text in pre-order by the harness's own walk; the candidate call sites and the top-level shape are read off the trees the real executor hands to cpp_ast_finder / write_cpp_files (the func_adl rewrites before them are not modelled); positions are observed by interposing process_metadata (dictionaries that report being looked at) and cpp_ast_finder.try_call (a counter); the error class is read off the traceback's frame names; a file counts as complete when it equals an independent rendering of its template with the recorded replacement dict",
+    "executor-level model: the visitor stage is the coarse dispatch model (the generated unsupported construct is table-driven); the values inside a dictionary (types that do not parse, non-list fields) are not modelled",
 ]
-ASSUMPTIONS = ["'raises' means any exception escaping apply_ast_transformations + write_cpp_files"]
+ASSUMPTIONS = ["'raises' means any exception escaping apply_ast_transformations + write_cpp_files",
+               "executor level: the output directory is fresh and writable; the file system does not fail (the only rendering failures modelled are a missing template and text that cannot be encoded)"]
 LEVEL_TEXT = (
     "Lean 4 theorem fail_closed/refuses_exactly: a visitor that visits every live child and fails on any node outside the (regenerated) "
     "dispatch tables refuses exactly the trees containing such a node, at any depth — errors propagate, nothing is skipped; decide-proofs "
@@ -80,15 +109,34 @@ LEVEL_TEXT = (
     "(a metadata dictionary is refused exactly when type or keys are malformed, at any place of the list), inject_refuses_exactly "
     "(contradictory inject_code blocks, wherever the two stand), jobscript_refuses_exactly (conflict, dangling dependency or circle among "
     "ALL job-script blocks of the query; corollary of C15.complete); the same predicates are evaluated on the implementation's outcome for "
-    "every generated wrong-arity call and malformed metadata list."
+    "every generated wrong-arity call and malformed metadata list. Executor level (ExecModel/ExecTheorems.lean): Exec.run models one translation "
+    "(apply_ast_transformations + write_cpp_files) as stages - process_metadata over EVERY dictionary of the chain in order (with the inject-block "
+    "bookkeeping), the method table (foreign collections, last declaration of a name counts), every candidate call site in post-order, the "
+    "executor keeping inject / job-script blocks, dataset / top-level shape / visitor, generate_script_block (ATLAS), template directory, every "
+    "file in order, chmod, reset. Theorems for ALL inputs: first_error_wins (the surfaced error is that of the first stage whose verdict on the raw "
+    "input is a refusal), refused_iff_some_stage_refuses (exact characterisation by predicates on the input), no_partial_package (refusal before "
+    "the files: EMPTY directory; a file that cannot be rendered: exactly the files before it, complete, plus the truncated file when the failure "
+    "came while writing; runner never executable), refused_runner_never_complete, accepted_is_complete, outcome_satisfies_spec, "
+    "malformed_item_any_position / inject_conflict_any_position / bad_call_any_position / job_blocks_all_handed (an item at ANY position among any "
+    "number of valid ones reaches its check; the error names its position), last_declaration_counts, refused_state_exact, and "
+    "failed_run_state_not_restored_counterexample (a refusal inside write_cpp_files leaves the job-script blocks on the executor - false of the "
+    "code, replayed on every run). The stage order, the file lists and which backend builds a job script are regenerated from the four executor "
+    "sources on every run. The real executors are run on generated histories and compared with the model on: refused?, error class, position of "
+    "the refused dictionary / call site, directory listing with completeness, runner mode, blocks kept, job-script lines; the Spec clauses "
+    "noPartialPackage and refused-if-malformed are evaluated on the observed outcome."
 )
 LEVEL_NOTE = (
     "The theorem is about the dispatch model; that the real visitor raises for each unsupported construct is sampled (every graft kind x "
     "random positions x three backends each run). Known: a top-level SelectMany of objects writes raw pointers; call keywords are dropped; "
     "a surplus argument of Select / Where is dropped. The arity and metadata models are models of the checks (build_CPPCodeValue, "
-    "process_metadata, ok_to_add_code_block, generate_script_block); that the executor hands EVERY block to them is sampled."
+    "process_metadata, ok_to_add_code_block, generate_script_block); that the executor hands EVERY block / call site to them, in the order of the model, "
+    "is a theorem about Exec.run and is observed on the real executors per generated history (position probes), not proved of the Python. "
+    "Real behaviour found by running: every refusal before the first file leaves the fresh output directory EMPTY; the only way to a non-empty "
+    "directory after a refusal is a file that cannot be written out (e.g. a lone surrogate in a string constant / job-script line / include): "
+    "the files before it stay, the file is truncated, the runner (last file of all three backends) is never there - never a directory that "
+    "looks like a finished package. Known (C07's root): a refusal inside write_cpp_files skips reset(), the job-script blocks stay on the executor."
 )
-TECHNIQUE = "Lean 4 theorem on a dispatch model over tables regenerated from source + malformed-query stream against the real pipeline"
+TECHNIQUE = "Lean 4 theorems on a dispatch model and on a stage model of the executor over tables regenerated from source + malformed-query and executor-history streams against the real pipeline"
 DESIGN_REF = "DESIGN.md §4 C09"
 
 
@@ -99,6 +147,131 @@ def translate(ctx):
     import c09_tables
 
     vlib.write_if_changed(vlib.LEAN / "FaxVerif/Generated/C09Tables.lean", c09_tables.generate(vlib.REPO))
+    vlib.write_if_changed(vlib.LEAN / "FaxVerif/Generated/C09Exec.lean", generate_exec(vlib.REPO))
+
+
+# ---------------------------------------------------------------- executor sources -> Generated/C09Exec.lean
+
+import ast as _ast
+
+EXEC_BACKENDS = [("atlas", "func_adl_xAOD/atlas/xaod/executor.py", "atlas_xaod_executor"),
+                 ("cms_aod", "func_adl_xAOD/cms/aod/executor.py", "cms_aod_executor"),
+                 ("cms_miniaod", "func_adl_xAOD/cms/miniaod/executor.py", "cms_miniaod_executor")]
+# the stage markers of the two public methods, in the order the model runs the stages
+APPLY_MARKS = ["extract_metadata", "process_metadata", "build_collection_callback", "cpp_ast_finder", "_inject_blocks=", "_job_option_blocks.append"]
+WRITE_MARKS = ["find_EventDataset", "_is_format_request", "get_rep", "add_to_replacement_dict", "_find_dir", "_copy_template_file", "chmod", "reset"]
+
+
+def _eval_order(node):
+    """the nodes below `node` in (an approximation of) evaluation order: an `a if c else b` evaluates c first,
+    an assignment its value before its targets, a dict comprehension its generators before its value"""
+    if isinstance(node, _ast.IfExp):
+        kids = [node.test, node.body, node.orelse]
+    elif isinstance(node, _ast.Assign):
+        kids = [node.value] + list(node.targets)
+    elif isinstance(node, (_ast.DictComp,)):
+        kids = list(node.generators) + [node.key, node.value]
+    elif isinstance(node, _ast.Call):
+        kids = [node.func] + list(node.args) + list(node.keywords)
+        yield from (x for k in kids for x in _eval_order(k))
+        yield node
+        return
+    else:
+        kids = list(_ast.iter_child_nodes(node))
+    yield node
+    for k in kids:
+        yield from _eval_order(k)
+
+
+def _marks(fn, wanted):
+    """first occurrence of each wanted marker in evaluation order: a call of that name (plain or attribute), or for
+    `x=` / `x.append` an assignment to / an append on the attribute x of self"""
+    seen = []
+    for n in _eval_order(fn):
+        m = None
+        if isinstance(n, _ast.Call):
+            f = n.func
+            nm = f.id if isinstance(f, _ast.Name) else f.attr if isinstance(f, _ast.Attribute) else None
+            if nm == "append" and isinstance(f.value, _ast.Attribute):
+                m = f.value.attr + ".append"
+            elif nm == "get_as_ROOT":
+                m = "get_rep"
+            else:
+                m = nm
+        elif isinstance(n, _ast.Assign) and len(n.targets) == 1 and isinstance(n.targets[0], _ast.Attribute):
+            m = n.targets[0].attr + "="
+        if m in wanted and m not in seen:
+            seen.append(m)
+    return seen
+
+
+def generate_exec(repo) -> str:
+    problems = []
+    L = lambda xs: "[" + ", ".join('"' + x.replace("\\", "\\\\").replace('"', '\\"') + '"' for x in xs) + "]"
+    rows = []
+    for bname, rel, cname in EXEC_BACKENDS:
+        try:
+            tree = _ast.parse((repo / rel).read_text())
+        except Exception as e:  # unreadable source: an explicit unrecognised value, never a crash
+            problems.append(f"{rel}: {type(e).__name__}")
+            continue
+        cls = [n for n in tree.body if isinstance(n, _ast.ClassDef) and n.name == cname]
+        if not cls:
+            problems.append(f"{rel}: class {cname} not found")
+            continue
+        files = runner = None
+        jobs = False
+        for m in cls[0].body:
+            if isinstance(m, _ast.FunctionDef) and m.name == "__init__":
+                for n in _ast.walk(m):
+                    if isinstance(n, _ast.Assign) and len(n.targets) == 1 and isinstance(n.targets[0], _ast.Name):
+                        try:
+                            if n.targets[0].id == "file_names":
+                                files = list(_ast.literal_eval(n.value))
+                            if n.targets[0].id == "runner_name":
+                                runner = _ast.literal_eval(n.value)
+                        except Exception:
+                            pass
+            if isinstance(m, _ast.FunctionDef) and m.name == "add_to_replacement_dict":
+                jobs = any(isinstance(n, _ast.Call) and isinstance(n.func, _ast.Name) and n.func.id == "generate_script_block" for n in _ast.walk(m))
+        if not (isinstance(files, list) and all(isinstance(f, str) for f in files)) or not isinstance(runner, str):
+            problems.append(f"{rel}: file_names / runner_name are not literals")
+            continue
+        rows.append(f'  ⟨"{bname}", {L(files)}, "{runner}", {"true" if jobs else "false"}⟩')
+    apply_o, write_o, base_jobs = [], [], False
+    try:
+        tree = _ast.parse((repo / "func_adl_xAOD/common/executor.py").read_text())
+        cls = [n for n in tree.body if isinstance(n, _ast.ClassDef) and n.name == "executor"][0]
+        fns = {m.name: m for m in cls.body if isinstance(m, _ast.FunctionDef)}
+        apply_o = _marks(fns["apply_ast_transformations"], APPLY_MARKS)
+        write_o = _marks(fns["write_cpp_files"], WRITE_MARKS)
+        base_jobs = any(isinstance(n, _ast.Call) and isinstance(n.func, _ast.Name) and n.func.id == "generate_script_block" for n in _ast.walk(fns["add_to_replacement_dict"]))
+    except Exception as e:
+        problems.append(f"common/executor.py: {type(e).__name__}: {e}")
+    if base_jobs:
+        problems.append("the base executor builds the job script itself")
+    out = [
+        "/- GENERATED by tools/props/c09.py (generate_exec) from func_adl_xAOD/common/executor.py and the three backend executors — do not edit -/",
+        "namespace FaxVerif.C09.ExecSrc",
+        "/-- what an executor class fixes: its name in the harness, `file_names` in order, `runner_name`, and whether its",
+        "`add_to_replacement_dict` runs `generate_script_block` over the job-script blocks -/",
+        "structure BackendSrc where",
+        "  name : String",
+        "  files : List String",
+        "  runner : String",
+        "  jobScripts : Bool",
+        "deriving Repr, DecidableEq",
+        "def backends : List BackendSrc := [",
+        ",\n".join(rows),
+        "]",
+        "/-- the stage markers of `apply_ast_transformations` / `write_cpp_files` in evaluation order -/",
+        f"def applyOrder : List String := {L(apply_o)}",
+        f"def writeOrder : List String := {L(write_o)}",
+        f"def unrecognised : List String := {L(problems)}",
+        "end FaxVerif.C09.ExecSrc",
+        "",
+    ]
+    return "\n".join(out)
 
 
 # ---------------------------------------------------------------- grafts
@@ -839,22 +1012,527 @@ def run_new_streams(ctx, cases, judge=True):
             continue
         if v["refuses"] != (not r["ok"]):
             ctx.disagreement(f"{c['family']} model vs translator (refuses?)", case, "refuses" if v["refuses"] else "accepts", "refused" if not r["ok"] else "accepted")
-        if c["family"] == "metadata" and not t["ok"]:
+        if c["family"] == "metadata" and not t["ok"] and c.get("host") is not None and not P.translate_functional(c["backend"], render_placed(c["host"], qgen.metadata(c["backend"]), [], []))["ok"]:
+            # the HOST query (no extra block at all) is refused by the translator: the shared generator produced a query outside the
+            # supported fragment (e.g. a shadowed lambda parameter) - nothing to learn about metadata from this case
+            ctx.count("harness:host-refused")
+        elif c["family"] == "metadata" and not t["ok"]:
             ctx.disagreement("metadata model vs translator (well-formed twin)", dict(case, full_source=c["twin_full"]), "accepts", f"refused: {t['error']}: {t['message'][:200]}")
+
+
+# ================================================================ executor level (ExecModel.lean)
+# One translation = apply_ast_transformations + write_cpp_files on a FRESH output directory. A case is a history of one
+# or two queries on ONE executor; every query is a generated chain with extra metadata blocks spread over it, several
+# call sites of callees with a fixed parameter list, and zero, one or several malformations at different stages. The
+# model (`Exec.run`, through the driver) predicts: refused?, the class of the error that surfaces and - for metadata and
+# call sites - its position, the listing of the output directory, whether the runner is executable, the job-script /
+# inject blocks the executor holds afterwards, and the job-script lines of an accepted package. The harness observes all
+# of that on the real executors (three backends) and evaluates the Spec clauses on the observation.
+
+import os
+import shutil
+import tempfile
+import traceback
+
+SUR = "\ud800"  # cannot be written out as UTF-8: the file in whose text it lands is truncated
+
+
+def _pre_order_metadata(a):
+    """the dictionaries of the MetaData calls in pre-order (function before arguments, arguments in order): the order the
+    model assumes `extract_metadata` delivers them in (outermost first)"""
+    out = []
+
+    def walk(n):
+        if isinstance(n, _ast.Call) and isinstance(n.func, _ast.Name) and n.func.id == "MetaData" and len(n.args) == 2:
+            out.append(_ast.literal_eval(n.args[1]))
+            walk(n.args[0])
+            return
+        for _, v in _ast.iter_fields(n):
+            for x in v if isinstance(v, list) else [v]:
+                if isinstance(x, _ast.AST):
+                    walk(x)
+
+    walk(a)
+    return out
+
+
+def _post_order_calls(a):
+    """candidate call sites (function = a plain name, or an attribute of a plain name) in post-order"""
+    out = []
+
+    def walk(n):
+        for _, v in _ast.iter_fields(n):
+            for x in v if isinstance(v, list) else [v]:
+                if isinstance(x, _ast.AST):
+                    walk(x)
+        if isinstance(n, _ast.Call):
+            f = n.func
+            first_str = bool(n.args) and isinstance(n.args[0], _ast.Constant) and isinstance(n.args[0].value, str)
+            if type(f) is _ast.Attribute and type(f.value) is _ast.Name:
+                out.append({"name": f.attr, "nargs": len(n.args), "as_method": True, "str_arg": first_str})
+            elif type(f) is _ast.Name:
+                out.append({"name": f.id, "nargs": len(n.args), "as_method": False, "str_arg": first_str})
+
+    walk(a)
+    return out
+
+
+def _top_shape(a):
+    has_ds = any(isinstance(n, _ast.Call) and isinstance(n.func, _ast.Name) and n.func.id == "EventDataset" for n in _ast.walk(a))
+    if not has_ds:
+        return "noDataset"
+    if not isinstance(a, _ast.Call):
+        return "notCall"
+    if not isinstance(a.func, _ast.Name):
+        return "callNotName"
+    return "resultTTree" if a.func.id == "ResultTTree" else "otherCall"
+
+
+def _item_req(d):
+    r = _md_req(d)
+    ty = r["ty"]
+    name = d.get("name") if isinstance(d.get("name"), str) else ""
+    r["name"] = name
+    if ty == "inject_code":
+        r["fields"] = [list(d.get(f, [])) if isinstance(d.get(f, []), list) else [] for f in INJECT_FIELDS]
+    if ty == "add_job_script":
+        r["script"] = [str(x) for x in d.get("script", [])] if isinstance(d.get("script", []), list) else []
+        r["deps"] = list(d.get("depends_on", []))
+    if ty == "add_cpp_function":
+        r["arity"] = len(d.get("arguments", [])) if isinstance(d.get("arguments", []), list) else 0
+        r["is_method"] = d.get("method_object") is not None
+    return r
+
+
+class _TrackDict(dict):
+    """a metadata dictionary that tells the probe when `process_metadata` looks at it"""
+
+    def _hit(self):
+        self._probe["md_last"] = self._idx
+
+    def get(self, *a):
+        self._hit()
+        return dict.get(self, *a)
+
+    def __getitem__(self, k):
+        self._hit()
+        return dict.__getitem__(self, k)
+
+    def __contains__(self, k):
+        self._hit()
+        return dict.__contains__(self, k)
+
+    def keys(self):
+        self._hit()
+        return dict.keys(self)
+
+
+STAGE_FRAMES = [  # innermost known frame -> class of the error, as `Exec.Err.cls` names them
+    ("ok_to_add_code_block", "inject"), ("process_metadata", "metadata"), ("build_collection_callback", "foreign"),
+    ("build_CPPCodeValue", "call"), ("get_collection", "call"), ("find_EventDataset", "dataset"), ("_is_format_request", "shape"),
+    ("generate_script_block", "jobscript"), ("_find_dir", "templatedir"), ("_copy_template_file", "render"),
+    ("get_rep", "visit"), ("get_as_ROOT", "visit"),
+]
+
+
+def exec_observe(b, queries, env):
+    """run the history `queries` (source texts) on ONE real executor of backend `b`, each into a fresh directory;
+    env: {"template_dir": bool, "missing": file or None} (a template directory without that file)"""
+    import func_adl_xAOD.common.cpp_ast as CA
+    import func_adl_xAOD.common.executor as EX
+    import jinja2
+
+    exe = P.make_executor(b)
+    tdir = None
+    if not env.get("template_dir", True):
+        exe._template_dir_name = "vp/no/such/template/dir"
+    elif env.get("missing"):
+        real = EX._find_dir(exe._template_dir_name)
+        tdir = tempfile.mkdtemp(prefix="vp_c09_tpl_")
+        for f in os.listdir(real):
+            if f != env["missing"] and os.path.isfile(os.path.join(real, f)):
+                shutil.copy(os.path.join(real, f), os.path.join(tdir, f))
+        exe._template_dir_name = tdir
+    obs = []
+    try:
+        for src in queries:
+            probe = {"md_last": None, "ncalls": 0, "finder_ast": None, "n_items": None}
+            out = Path(tempfile.mkdtemp(prefix="vp_c09_out_"))
+            orig_pm, orig_finder = EX.process_metadata, CA.cpp_ast_finder
+
+            def pm(md_list, *a, **kw):
+                tracked = []
+                for i, d in enumerate(md_list):
+                    t = _TrackDict(d)
+                    t._probe, t._idx = probe, i
+                    tracked.append(t)
+                probe["n_items"] = len(tracked)
+                return orig_pm(tracked, *a, **kw)
+
+            class Finder(orig_finder):  # type: ignore
+                def visit(self, node):
+                    if probe["finder_ast"] is None:
+                        probe["finder_ast"] = copy.deepcopy(node)
+                    return super().visit(node)
+
+                def try_call(self, name, node):
+                    probe["ncalls"] += 1
+                    return super().try_call(name, node)
+
+            o = {"refused": False, "error": None, "cls": None, "in_apply": None}
+            a2 = None
+            a = P.query_ast_functional(b, src)  # (a text Python cannot parse is a slip of the generator: SyntaxError to the caller)
+            o["items"] = _pre_order_metadata(a)
+            stage = "apply"
+            try:
+                EX.process_metadata, CA.cpp_ast_finder = pm, Finder
+                try:
+                    stage = "apply"
+                    a2 = exe.apply_ast_transformations(a)
+                    o["top"] = _top_shape(a2)
+                    stage = "write"
+                    info = exe.write_cpp_files(a2, out)
+                    o["all_filenames"] = list(info.all_filenames)
+                    o["main_script"] = info.main_script
+                finally:
+                    EX.process_metadata, CA.cpp_ast_finder = orig_pm, orig_finder
+            except Exception as e:
+                o["refused"], o["error"], o["in_apply"] = True, type(e).__name__, stage == "apply"
+                o["message"] = str(e)[:200]
+                names = [f.name for f in traceback.extract_tb(e.__traceback__)]
+                o["cls"] = next((c for fr, c in STAGE_FRAMES if fr in names), None)
+            o["md_last"], o["ncalls"] = probe["md_last"], probe["ncalls"]
+            o["calls"] = _post_order_calls(probe["finder_ast"]) if probe["finder_ast"] is not None else None
+            # the output directory: names in the order of the package, completeness against an independent rendering
+            listing = sorted(os.listdir(out))
+            rec = getattr(exe, "recorded_info", None)
+            written = []
+            order = {f: i for i, f in enumerate(exe._file_names)}
+            for f in sorted(listing, key=lambda x: order.get(x, 99)):
+                data = (out / f).read_bytes()
+                complete = len(data) > 0
+                if rec is not None:
+                    try:
+                        td = EX._find_dir(exe._template_dir_name)
+                        full = jinja2.Environment(loader=jinja2.FileSystemLoader(td)).get_template(f).render(rec).encode("utf-8", "surrogatepass")
+                        complete = data == full
+                    except Exception:
+                        pass
+                written.append([f, complete])
+            o["written"] = written
+            rp = out / exe._runner_name
+            o["runner_exec"] = rp.exists() and bool(rp.stat().st_mode & 0o111)
+            o["state_jobs"] = [getattr(x, "name", "?") for x in exe._job_option_blocks]
+            o["state_injects"] = [getattr(x, "name", "?") for x in exe._inject_blocks]
+            o["job_lines"] = [str(x) for x in rec["job_option_additions"]] if (not o["refused"] and rec is not None and "job_option_additions" in rec) else ([] if not o["refused"] else None)
+            if hasattr(exe, "recorded_info"):
+                del exe.recorded_info
+            shutil.rmtree(out, ignore_errors=True)
+            obs.append(o)
+    finally:
+        if tdir:
+            shutil.rmtree(tdir, ignore_errors=True)
+    return obs
+
+
+def _builtins(b):
+    """the callees an executor knows without metadata, as far as the generated queries can meet them"""
+    out = [{"name": "DeltaR", "kind": "code", "arity": 4, "is_method": False}]
+    if b == "atlas":
+        out += [{"name": n, "kind": "code", "arity": 1, "is_method": True} for n in ("getAttributeFloat", "getAttributeVectorFloat")]
+        from func_adl_xAOD.atlas.xaod.event_collections import atlas_xaod_collections as cs
+    elif b == "cms_aod":
+        from func_adl_xAOD.cms.aod.event_collections import cms_aod_collections as cs
+    else:
+        from func_adl_xAOD.cms.miniaod.event_collections import cms_miniaod_collections as cs
+    return [{"name": c.name, "kind": "coll"} for c in cs] + out
+
+
+FOREIGN = {"atlas": "cms_aod", "cms_aod": "cms_miniaod", "cms_miniaod": "atlas"}
+
+
+def gen_exec_query(rng, b, force=None):
+    """(source text, body Py of the model, render expectation {file: 'after'}, what was broken). Malformations are drawn
+    independently per stage, so that several can meet in one query."""
+    et = qgen.elem_type(b, "As")
+    broken = []
+    r = rng.random()
+    nbad = 0 if r < 0.55 else 1 if r < 0.8 else 2 if r < 0.94 else 3
+    stages = ["md", "inject", "foreign", "call", "visit", "job", "top", "render"] if b == "atlas" else ["md", "inject", "foreign", "call", "visit", "top", "render"]
+    bad = set(rng.sample(stages, nbad)) if force is None else set(force)
+    blocks = []
+    # user functions; sometimes one name declared twice with different parameter lists (the LAST one in the chain counts)
+    fns = {}
+    for j in range(rng.randint(1, 3)):
+        name, k = f"vpx{j}", rng.randint(0, 3)
+        blocks.append(_user_spec(name, k, False, et))
+        fns[name] = k
+        if rng.random() < 0.25:
+            blocks.append(_user_spec(name, rng.choice([x for x in range(4) if x != k]), False, et))
+            fns[name] = None  # decided by the order of the chain: the model knows
+    # well-formed job-script and inject blocks (copies included)
+    for _ in range(rng.randint(0, 2) if b == "atlas" else rng.randint(0, 1)):
+        good, badj, _how = gen_job_blocks(rng)
+        blocks += badj if "job" in bad and "job" not in broken else good
+        if "job" in bad and "job" not in broken:
+            broken.append("job")
+    if "job" in bad and "job" not in broken:
+        blocks += gen_job_blocks(rng)[1]
+        broken.append("job")
+    for _ in range(rng.randint(0, 1)):
+        blocks += gen_inject_blocks(rng)[0]
+    if "inject" in bad:
+        blocks += [dict(d, name="vq_" + d["name"]) for d in gen_inject_blocks(rng)[1]]
+        broken.append("inject")
+    if "md" in bad:
+        for _ in range(rng.choice([1, 1, 2])):
+            blocks += gen_key_blocks(rng, b)[1]
+        broken.append("md")
+    elif rng.random() < 0.5:
+        blocks += [dict(d, name="vk_" + str(d.get("name", ""))) if "name" in d and d["metadata_type"] != "add_method_type_info" else d for d in gen_key_blocks(rng, b)[0]]
+    if "foreign" in bad:
+        fb = FOREIGN[b]
+        blocks.append({"metadata_type": qgen.MDTYPE[fb], "name": rng.choice(["Fs", "As"]), "include_files": ["vp/F.h"], "container_type": "vp::FContainer",
+                       "element_type": "vp::F", "contains_collection": True})
+        broken.append("foreign")
+    render = {}
+    if "render" in bad:
+        where = rng.choice(["const", "inject"] + (["job"] if b == "atlas" else []))
+        main = "query.cxx" if b == "atlas" else "Analyzer.cc"
+        if where == "job":
+            blocks.append(_js("vp_sur", ["# " + SUR], []))
+            render = {"ATestRun_eljob.py": "after"}
+        elif where == "inject":
+            blocks.append(_ib("vp_sur", {"body_includes": ["vp" + SUR + ".h"]}))
+            render = {main: "after"}
+        else:
+            render = {main: "after"}
+        broken.append("render:" + where)
+    else:
+        where = None
+    # the call sites
+    terms, ncall_bad = [], 0
+    for _ in range(rng.randint(1, 4)):
+        kind = rng.choice(["fn", "fn", "DeltaR", "coll", "coll", "nested"])
+        wrong = "call" in bad and (ncall_bad == 0 or rng.random() < 0.3) and rng.random() < 0.6
+        if kind in ("fn", "nested"):
+            name = rng.choice(sorted(fns))
+            k = fns[name] if fns[name] is not None else rng.randint(0, 3)
+            n = rng.choice([x for x in range(0, k + 3) if x != k]) if wrong else k
+            t = f"{name}(" + ", ".join(rng.choice(["1.5", "2.0", "e.As('ba').Count()"]) for _ in range(n)) + ")"
+            if kind == "nested":
+                t = f"DeltaR({t}, 1.0, 2.0, 0.5)"
+        elif kind == "DeltaR":
+            n = rng.choice([2, 3, 5]) if wrong else 4
+            t = ("e.DeltaR(" if wrong and rng.random() < 0.3 else "DeltaR(") + ", ".join(["1.0", "0.5", "2.0", "0.25", "3.0"][:n]) + ")"
+        else:
+            args = rng.choice([[], ["'ba'", "'bb'"], ["1"]]) if wrong else ["'ba'"]
+            t = f"e.{rng.choice(['As', 'Bs'])}(" + ", ".join(args) + ").Count()"
+        ncall_bad += wrong
+        terms.append(t)
+    if "call" in bad and ncall_bad == 0:
+        terms.insert(rng.randint(0, len(terms)), "DeltaR(1.0, 2.0)")
+    if "call" in bad:
+        broken.append("call")
+    expr = "(" + " + ".join(terms) + ")"
+    body = OKLEAF
+    if "visit" in bad:
+        name, build, py = rng.choice([g for g in GRAFTS_NUM if g[2] is not None and g[0] not in ("setdisplay", "listcomp", "fstring")])
+        expr = build({"k": "raw", "fmt": expr, "args": []})["fmt"].format(expr)
+        body = py
+        broken.append("visit:" + name)
+    if where == "const":
+        expr = f"({expr}, '\\ud800')"
+    # the chain and the places of the blocks
+    depth = rng.randint(1, 3)
+    base = qgen.metadata(b)
+    places = [(rng.choice([0, 0, 0] + list(range(1, depth + 1))), rng.random()) for _ in blocks]
+    nb = max(len(base), 1)
+    lvl0 = sorted([((i + 0.5) / nb, 0, d) for i, d in enumerate(base)] + [(rr, 1 + j, d) for j, (d, (l, rr)) in enumerate(zip(blocks, places)) if l == 0], key=lambda t: (t[0], t[1]))
+    s = "ds0" if "top" not in bad or rng.random() < 0.6 else "vp_no_dataset"
+    for _, _, d in lvl0:
+        s = f"MetaData({s}, {d!r})"
+    for i in range(1, depth + 1):
+        lam = f"lambda e: {expr}" if i == depth else "lambda e: e.As('ba').Count() >= 0"
+        s = f"{'Select' if i == depth else 'Where'}({s}, {lam})"
+        for d, (l, rr) in sorted(zip(blocks, places), key=lambda t: t[1][1]):
+            if l == i:
+                s = f"MetaData({s}, {d!r})"
+    if "top" in bad:
+        if "vp_no_dataset" not in s:
+            s = rng.choice(["({0}, 1)", "{0}.vp_unknown(1)", "[{0}]"]).format(s)
+        broken.append("top")
+    elif rng.random() < 0.3:
+        ncols = 2 if where == "const" else 1
+        s = f"ResultTTree({s}, {['c' + str(i) for i in range(ncols)]!r}, 'vptree', 'vp.root')"
+    return {"src": s, "body": body, "render": render, "broken": broken}
+
+
+def gen_exec_cases(ctx, n):
+    rng = ctx.rng
+    cases = []
+    for i in range(n):
+        b = P.BACKENDS[i % 3]
+        nq = 1 if rng.random() < 0.7 else 2
+        qs = [gen_exec_query(rng, b) for _ in range(nq)]
+        env = {"template_dir": True, "missing": None}
+        r = rng.random()
+        if r < 0.03:
+            env["template_dir"] = False
+        elif r < 0.09:
+            env["missing"] = rng.choice(P.make_executor(b)._file_names)
+        cases.append({"kind": "exec", "backend": b, "queries": [q["src"] for q in qs], "bodies": [q["body"] for q in qs],
+                      "renders": [q["render"] for q in qs], "broken": [q["broken"] for q in qs], "env": env})
+    return cases
+
+
+def _nosur(x):
+    """the driver protocol is UTF-8: the unencodable character travels under another name"""
+    if isinstance(x, str):
+        return x.replace(SUR, "<SUR>")
+    if isinstance(x, list):
+        return [_nosur(y) for y in x]
+    if isinstance(x, dict):
+        return {_nosur(k): _nosur(v) for k, v in x.items()}
+    return x
+
+
+def exec_request(c, obs):
+    """the driver request for one history: the model runs on what the harness derived from the query texts (metadata in
+    pre-order) and from the stage inputs the real executor was given (candidate call sites, top-level shape)"""
+    b = c["backend"]
+    qs = []
+    for j, o in enumerate(obs):
+        render = dict(c["renders"][j])
+        if c["env"].get("missing"):
+            render[c["env"]["missing"]] = "before"
+        qs.append({"items": [_item_req(d) for d in o.get("items", [])], "calls": o["calls"] or [], "top": o.get("top", "otherCall"), "body": c["bodies"][j],
+                   "env": {"template_dir": c["env"].get("template_dir", True), "render": render}})
+    return _nosur({"op": "exec", "backend": b, "builtins": _builtins(b), "queries": qs})
+
+
+def _exec_what(c, j, o, m, why):
+    return f"executor level, query {j + 1} of the history on {c['backend']} ({'+'.join(c['broken'][j]) or 'nothing broken'}): {why}"
+
+
+def run_exec_stream(ctx, cases, judge=True):
+    """returns the list of Spec failures (for `search`); with judge=True reports them"""
+    fails = []
+    observed_all = []
+    for c in cases:
+        try:
+            observed_all.append(exec_observe(c["backend"], c["queries"], c["env"]))
+        except SyntaxError:
+            ctx.count("harness:python-syntax")
+            observed_all.append(None)
+    live = [(c, obs) for c, obs in zip(cases, observed_all) if obs is not None]
+    reqs = [exec_request(c, obs) for c, obs in live]
+    spec_reqs = [{"op": "obs", "backend": c["backend"], "refused": o["refused"], "written": o["written"], "runner_exec": o["runner_exec"]} for c, obs in live for o in obs]
+    answers = ctx.driver(DRIVER, reqs + spec_reqs) if reqs else []
+    model_ans, spec_ans = answers[: len(reqs)], iter(answers[len(reqs):])
+    for (c, obs), a in zip(live, model_ans):
+        b = c["backend"]
+        runs = a["runs"] if "bad" not in a else [None] * len(obs)
+        for j, (o, m) in enumerate(zip(obs, runs)):
+            sp = next(spec_ans)
+            key = f"exec|{b}|{j}|{c['queries'][j]}"
+            if m is None:
+                ctx.count("harness:driver-bad-answer")
+                continue
+            ctx.count("exec:outcome:" + ("refused:" + str(o["cls"]) if o["refused"] else "accepted"))
+            ctx.count(f"exec:broken={len(c['broken'][j])}")
+            ctx.count(f"exec:items={min(len(o.get('items', [])) // 10 * 10, 40)}+")
+            if j > 0:
+                ctx.count("exec:second-query-of-history")
+            ctx.case(key, len(o.get("items", [])) >= 10 and len(o.get("calls") or []) >= 2,
+                     {"backend": b, "query": c["queries"][j][-300:], "broken": c["broken"][j], "outcome": o["error"] or "accepted", "directory": o["written"]})
+            case = {"kind": "exec", "backend": b, "queries": c["queries"][: j + 1], "env": c["env"], "bodies": c["bodies"][: j + 1], "renders": c["renders"][: j + 1],
+                    "broken": c["broken"][: j + 1]}
+            observed = {k: o.get(k) for k in ("refused", "error", "message", "cls", "written", "runner_exec", "state_jobs", "state_injects", "job_lines")}
+            # --- the Spec clauses on the implementation's outcome
+            why = None
+            if not sp.get("ok", True):
+                why = ("a refused translation left " + (f"the files {[w[0] for w in o['written']]}" if o["written"] else "nothing") + (" and an executable runner" if o["runner_exec"] else "")
+                       + " - not a proper initial part of the package") if o["refused"] else f"a package was returned but the output directory holds {o['written']} (runner executable: {o['runner_exec']})"
+            elif m["malformed"] and not o["refused"]:
+                why = f"the query is malformed ({'+'.join(c['broken'][j])}; model: refused with `{m['cls']}`) and a package is returned"
+            elif not o["refused"] and not m["refused"] and (o.get("all_filenames") != [w[0] for w in m["written"]] or o.get("main_script") != m["written"][-1][0]):
+                why = f"the returned descriptor names {o.get('all_filenames')} / {o.get('main_script')}, the package is {[w[0] for w in m['written']]}"
+            if why is not None:
+                f = {"key": key, "what": _exec_what(c, j, o, m, why), "case": case, "observed": observed}
+                fails.append(f)
+                if judge:
+                    ctx.violation(key=key, what=f["what"], case=case, observed=observed, how="./check C09 --replay <this file> (runs the history on one real executor, fresh output directories)")
+                continue
+            # --- model vs implementation
+            diffs = {}
+            if m["refused"] != o["refused"]:
+                diffs["refused"] = (m["refused"], o["refused"])
+            else:
+                if o["refused"]:
+                    if m["in_apply"] != o["in_apply"]:
+                        diffs["public method that raised"] = ("apply" if m["in_apply"] else "write", "apply" if o["in_apply"] else "write")
+                    if o["cls"] is None:
+                        ctx.count("harness:unknown-frame")
+                    elif m["cls"] != o["cls"]:
+                        diffs["error class"] = (m["cls"], o["cls"])
+                    elif m["cls"] in ("metadata", "inject") and o["md_last"] is not None and m["idx"] != o["md_last"]:
+                        diffs["position of the refused dictionary"] = (m["idx"], o["md_last"])
+                    elif m["cls"] == "call" and o["calls"] is not None and m["idx"] != o["ncalls"] - 1:
+                        diffs["position of the refused call site"] = (m["idx"], o["ncalls"] - 1)
+                else:
+                    if b == "atlas" and m["job_lines"] != _nosur(o["job_lines"]):
+                        diffs["job-script lines"] = (m["job_lines"], o["job_lines"])
+                    if o["calls"] is not None and o["ncalls"] != len(o["calls"]):
+                        diffs["call sites handed to the table"] = (len(o["calls"]), o["ncalls"])
+                    if o.get("items") and o["md_last"] is not None and o["md_last"] != len(o["items"]) - 1:
+                        diffs["last dictionary process_metadata looked at"] = (len(o["items"]) - 1, o["md_last"])
+                for k in ("written", "runner_exec", "state_jobs", "state_injects"):
+                    if m[k] != o[k]:
+                        diffs[k] = (m[k], o[k])
+            if diffs:
+                ctx.disagreement("executor model vs real executor: " + ", ".join(diffs), case, {k: v[0] for k, v in diffs.items()}, {k: v[1] for k, v in diffs.items()})
+            if o["calls"] is None and not (o["refused"] and o["cls"] in ("metadata", "inject", "foreign")):
+                ctx.count("harness:no-finder-probe")
+    return fails
+
+
+LEAK_KEY = "exec-history|atlas|refused-by-visitor-then-clean-query"
+
+
+def leak_history():
+    """the literal of `failed_run_state_not_restored_counterexample`"""
+    base = _md_src(qgen.metadata("atlas"))
+    first = f"Select(MetaData({base}, {_js('vpleak', ['# leaked line'], [])!r}), lambda e: e.As('ba').Count() // 2)"
+    second = f"Select({base}, lambda e: e.As('ba').Count())"
+    return {"kind": "exec-history", "backend": "atlas", "queries": [first, second], "env": {"template_dir": True, "missing": None}}
+
+
+def replay_history(c):
+    obs = exec_observe(c["backend"], c["queries"], c.get("env", {}))
+    return obs
 
 
 def run(ctx):
     # known findings
     for e in ctx.known_entries("known") + ctx.known_entries("fixed"):
         c = e["input"]
+        if c.get("kind") == "exec-history":
+            obs = replay_history(c)
+            if obs[0]["refused"] and not obs[-1]["refused"] and "# leaked line" in (obs[-1]["job_lines"] or []):
+                ctx.violation(key=e["key"] if e["status"] == "known" else "regressed:" + e["key"], what=e["what"], case=c,
+                              observed={"state after the refused query": obs[0]["state_jobs"], "job-script lines of the next package": obs[-1]["job_lines"]})
+            continue
         r = P.translate_functional(c["backend"], c["full_source"])
         if r["ok"]:
             key = e["key"] if e["status"] == "known" else "regressed:" + e["key"]
             ctx.violation(key=key, what=e["what"], case=c, observed={"generated_code": r["query"]})
     # minimised past failures of the arity / metadata families
     corpus = [c["case"] for c in vlib.corpus_cases(ID) if "case" in c]
-    if corpus:
-        run_new_streams(ctx, corpus)
+    if [c for c in corpus if c.get("kind") != "exec"]:
+        run_new_streams(ctx, [c for c in corpus if c.get("kind") != "exec"])
+    if [c for c in corpus if c.get("kind") == "exec"]:
+        run_exec_stream(ctx, [c for c in corpus if c.get("kind") == "exec"])
     n = 300 if ctx.tier == "quick" else 3000
     cases = gen_cases(ctx, n)
     results = [run_case(c) for c in cases]
@@ -871,6 +1549,8 @@ def run(ctx):
     # calls with a fixed parameter list written with another number of arguments / in the other style; malformed metadata
     na, nm = (150, 210) if ctx.tier == "quick" else (1500, 2100)
     run_new_streams(ctx, gen_arity_cases(ctx, na) + gen_md_cases(ctx, nm))
+    # executor level: histories of one or two generated queries on one executor, fresh output directories
+    run_exec_stream(ctx, gen_exec_cases(ctx, 150 if ctx.tier == "quick" else 1000))
     ctx.extra_cov["exhaustive"] = False
 
 
@@ -880,6 +1560,9 @@ def search(ctx, broken):
         r = run_case(c)
         if r["ok"]:
             return {"key": f"{c['backend']}|{c['graft']}|{c['src']}", "what": f"unsupported construct ({c['graft']}) accepted", "case": {"backend": c["backend"], "graft": c["graft"], "source": c["src"]}, "observed": {"generated_code": r["query"]}}
+    fails = run_exec_stream(ctx, gen_exec_cases(ctx, 600), judge=False)
+    if fails:
+        return fails[0]
     more = gen_arity_cases(ctx, 600) + gen_md_cases(ctx, 900)
     hit = _fails(ctx, more)
     if hit is not None:
@@ -891,6 +1574,21 @@ def search(ctx, broken):
 
 def replay(ctx, rep) -> int:
     c = rep["case"]
+    if c.get("kind") in ("exec", "exec-history"):
+        obs = replay_history(c)
+        bad = 0
+        for j, o in enumerate(obs):
+            print(f"query {j + 1}: " + (f"refused ({o['error']}: {o.get('message', '')[:120]})" if o["refused"] else "accepted"),
+                  "| directory:", o["written"], "| runner executable:", o["runner_exec"], "| executor keeps job blocks", o["state_jobs"], "inject blocks", o["state_injects"],
+                  "| job-script lines:", o["job_lines"])
+        if c.get("kind") == "exec":
+            fails = run_exec_stream(ctx, [c], judge=False)
+            bad = 1 if fails else 0
+            for f in fails:
+                print("VIOLATION:", f["what"])
+        else:
+            bad = 1 if (obs[0]["refused"] and "# leaked line" in (obs[-1]["job_lines"] or [])) else 0
+        return bad
     src = c.get("full_source") or c["source"].replace("DSMD", "ds0").replace("ds0", _md_src(qgen.metadata(c["backend"])), 1)
     r = P.translate_functional(c["backend"], src)
     print("accepted — VIOLATION" if r["ok"] else f"refused: {r['error']}: {r['message'][:200]}")
